@@ -186,6 +186,21 @@ def _r112(ck, prog, cfg):
             ck.check(lib2.awaited_error_propagates(f, lb), "R11.2", "%s:load-error-propagates%s" % (short, _tag(cfg)),
                      "a segment that fails to load is skipped instead of failing recovery: its updates silently vanish", f.where(lt["ln"]),
                      detail="load_segment(..).await? ")
+            # every loaded segment's deltas are appended to the result (per iteration: no `continue` past the extend)
+            exts = {b for b, t in f.calls() if is_callee(t, r"Extend<.*>>::extend$", r"Vec::<.*ReplicationDelta>::(extend|append|push)")}
+            heads = lib2.loop_heads(f)
+            aw = lib2.await_result(f, lb)
+            mine = [h for h, (none_t, some_t, nb) in heads.items() if lb == some_t or lb in f.reach([some_t], avoid=[h])]
+            if aw and mine and exts:
+                errs = {x for x in f.reachable_blocks() if lib2._err_assign_block(f, x)}
+                h = mine[0]
+                none_t, some_t, nb = heads[h]
+                skip = lib2.path_avoiding(f, aw[1], lambda x: x == nb or f.term(x)["k"] == "return", lambda x: x in exts or x in errs, (), from_succ=False)
+                ck.check(skip is None, "R11.2", "%s:loaded-deltas-appended%s" % (short, _tag(cfg)),
+                         "an iteration of the segment loop can finish without appending the deltas it loaded to the recovered state",
+                         f.where(lt["ln"]), detail="all_deltas.extend(segment_deltas) on every path of the iteration")
+            else:
+                ck.bad("R11.2", "%s:loaded-deltas-appended%s" % (short, _tag(cfg)), "segment loop / extend of the loaded deltas not found", f.where(lt["ln"]))
             # the loop feeding load_segment: into_iter over segments_to_load
             arg = src_of_operand(f, lt["args"][1])
             it = None
